@@ -604,18 +604,20 @@ func (fc *FnCtx) trackedCalls() map[string]bool {
 	return fc.tracked
 }
 
-func callName(c *ssa.Call) []string {
-	if c.Call.IsInvoke() {
-		return []string{c.Call.Method.Name()}
+func callName(c *ssa.Call) []string { return callNameCommon(&c.Call) }
+
+func callNameCommon(cc *ssa.CallCommon) []string {
+	if cc.IsInvoke() {
+		return []string{cc.Method.Name()}
 	}
-	if f, ok := c.Call.Value.(*ssa.Function); ok {
+	if f, ok := cc.Value.(*ssa.Function); ok {
 		return []string{fnName(f), f.Name()}
 	}
-	if b, ok := c.Call.Value.(*ssa.Builtin); ok && b.Name() == "copy" {
+	if b, ok := cc.Value.(*ssa.Builtin); ok && b.Name() == "copy" {
 		return []string{"copy"} // call-site clauses may pin what a copy reads and writes
 	}
 	// a call through a function-valued struct field (srv.MsgInvalidFunc(m, err)) goes by the field's name
-	switch v := c.Call.Value.(type) {
+	switch v := cc.Value.(type) {
 	case *ssa.UnOp:
 		if fv, ok := v.X.(*ssa.FreeVar); ok && v.Op == token.MUL {
 			// a variable captured by reference: the call goes by the variable's name
